@@ -2,7 +2,7 @@
 //! Curve3::from_points included) against a brute-force oracle.
 //! Meshes (watertight): box 2x3x4, prism (triangle (0,0),(4,0),(0,3) extruded by 2), tetrahedron with legs 4 (convex) and an
 //! L-shaped prism (non-convex: one curve per connected chain of crossing segments, up to two loops);
-//! poses: identity, translation (1,-2,3), quarter turn about z + translation, third turn about (1,1,1).  Planes: 16
+//! poses: identity, translation (1,-2,3), quarter turn about z + translation, third turn about (1,1,1).  Planes: 17
 //! normals (6 axis-aligned, the 4 sign patterns of (1,1,1), (1,2,2)/3, (2,-3,6)/7, (1,-1,0.2), (-3,1,-2), (0,1,1),
 //! (1,0,-2), (1,1,0)) x offsets: 0.5 outside either end of the mesh's extent along the normal (miss), odd sixteenths of the
 //! extent, 0.25 and 2^-12 inside either end (single corners cut off: 3-segment loops, segments shorter than 1e-3).
